@@ -36,6 +36,9 @@ GroupOK(e) ==
                 cs == [k \in 1..Len(idx) |-> e.vals[idx[k]]] IN
             /\ e.res[j].cnt = Cardinality(mem)
             /\ e.res[j].cntv = CountNN(cs)
+            \* DISTINCT applies to whatever the argument is: a constant has one distinct value, a column of numbers as many as it has different numbers
+            /\ e.res[j].cnt1 = 1
+            /\ (~e.res[j].mixed => e.res[j].cntd = Cardinality({NumCells(cs)[i].f2 : i \in 1..Len(NumCells(cs))}))
             /\ (e.res[j].hassum => /\ NumCells(cs) # <<>>
                                    /\ e.res[j].sum2 = Sum2(NumCells(cs))
                                    \* MIN / MAX are judged on buckets of numbers only (a text among them is ordered by the type ladder)
